@@ -1,6 +1,11 @@
 //! mc_core: exhaustive bounded exploration engines that drive the real erg crates in-process.
 mod shard;
 mod lexenum;
+mod sexp;
+mod prec;
+mod paths;
+mod pred;
+mod graphbfs;
 
 fn main() {
     let args: Vec<String> = std::env::args().collect();
@@ -12,6 +17,10 @@ fn main() {
     let rest = &args[2..];
     match args[1].as_str() {
         "lex-enum" => lexenum::main(rest),
+        "prec" => prec::main(rest),
+        "paths" => paths::main(rest),
+        "pred" => pred::main(rest),
+        "graph-bfs" => graphbfs::main(rest),
         other => {
             eprintln!("unknown engine {other}");
             std::process::exit(2);
